@@ -87,7 +87,7 @@ def gen_g(r, name):
     t = wchoice(r, [("mix", 5), ("loop_sum", 1), ("bool_list", 1.2), ("lookup", 1), ("tuple", 1), ("const_index", 0.5), ("range", 0.4), ("with_def", 1.5), ("ifstmt", 1), ("list_tuples", 0.5),
                     ("builtins", 1.5), ("two_lists", 0.8), ("inner_def", 1.2), ("minmax", 0.6),
                     ("unpack", 0.8), ("enum_loop", 0.8), ("forward", 0.8), ("double_index", 0.6), ("augassign", 0.6), ("multi_assign", 1.0),
-                    ("reassign", 0.8), ("iterate_twice", 0.8), ("branch_const", 0.8), ("prefix_names", 0.6), ("sum_builtin", 1.2), ("param_mutated", 1.4), ("other_types", 2.0)])
+                    ("reassign", 0.8), ("iterate_twice", 0.8), ("branch_const", 0.8), ("prefix_names", 0.6), ("sum_builtin", 1.2), ("param_mutated", 1.4), ("other_types", 2.0), ("tuple_return", 1.0)])
     defs = []
     if t == "mix":
         # 1-4 parameters interleaved anywhere in the signature with 1-3 real arguments
@@ -259,6 +259,15 @@ def gen_g(r, name):
         else:
             params, args, ret = [("c", "Qchar")], [("a", "Qchar")], "bool"
             src = f"def {name}(c: Parameter[Qchar], a: Qchar) -> bool:\n    return a {r.choice(['==', '!='])} c\n"
+    elif t == "tuple_return":
+        # parameters handed straight through to return bits, next to expressions that need work qubits: after binding the
+        # function has CONSTANT return bits between computed ones (no Python-level decode of tuples: B2, B4, B6 judge)
+        exprs = ["c and not a", "a and not b", "(a or b) and c", "a ^ b", "not (b and c)", "a", "not c"]
+        k = r.randint(2, 4)
+        parts = r.sample(exprs, k - 1) + [r.choice(["p", "not p", "p and q", "p or a", "q"])]
+        r.shuffle(parts)
+        params, args, ret = [("p", "bool"), ("q", "bool")], [("a", "bool"), ("b", "bool"), ("c", "bool")], "Tuple[" + ", ".join(["bool"] * k) + "]"
+        src = f"def {name}(a: bool, p: Parameter[bool], b: bool, c: bool, q: Parameter[bool]) -> {ret}:\n    return ({', '.join(parts)})\n"
     elif t == "iterate_twice":
         n = r.randint(2, 3)
         params, args, ret = [("p", f"Qlist[bool, {n}]")], [("a", "bool"), ("b", "bool")], "bool"
@@ -786,8 +795,34 @@ def table_of(qf):
     return hdr, norm
 
 
+def circuit_outputs(qf, inbits):
+    """the compiled circuit of qf run classically on one basis input: values of output_qubits, or None when the
+    circuit is not a reversible classical circuit of X / controlled-X gates"""
+    qc = qf.circuit()
+    st = [False] * qc.num_qubits
+    iq = list(qf.input_qubits)
+    if len(iq) != len(inbits):
+        raise ValueError("input_qubits has %d entries for %d input bits" % (len(iq), len(inbits)))
+    for q, b in zip(iq, inbits):
+        st[q] = bool(b)
+    for g, w, _p in qc.gates:
+        nm = type(g).__name__
+        if nm in ("Barrier", "NopGate", "I"):
+            continue
+        if nm == "X":
+            st[w[0]] = not st[w[0]]
+        elif nm in ("CX", "CCX", "MCX") or (hasattr(g, "n_controls") and type(getattr(g, "gate", None)).__name__ == "X"):
+            if all(st[c] for c in w[:-1]):
+                st[w[-1]] = not st[w[-1]]
+        else:
+            return None
+    return [st[q] for q in qf.output_qubits]
+
+
 def decode_rows(hdr, rows, args, ret):
     """[(inputs dict of python values, returned python value)] from a truth table"""
+    if ret != "bool" and width(ret) is None:
+        return None  # return type the Python-level oracle does not decode (tuples): B2 / B6 still apply
     out = []
     nin = len(hdr) - (width(ret) or 1)
     for row in rows:
@@ -1002,6 +1037,53 @@ def run_segment(plan, ctx, detail=False, table=None):
                     if skey in sem_table and sem_table[skey] != rec["table"]:
                         violation = viol("B4", op, ["truth table differs from an earlier bind to the same values"])
                     sem_table.setdefault(skey, rec["table"])
+                    # B6: the bound function's CIRCUIT (what binding is for), run classically on every basis input, carries
+                    # the row's outputs on output_qubits. A disagreement that the program with the assignments prepended
+                    # by hand -- compiled with the same options -- shows identically is the compiler's (C02), not bind's
+                    if ua["to_compile"] and getattr(res, "_qcircuit", None) is not None and "fault" not in a:
+                        nin_ = sum(len(x.bitvec) for x in res.args)
+
+                        def circuit_rows(q_):
+                            out_ = []
+                            for row in rows:
+                                if any(not isinstance(c_, bool) for c_ in row):
+                                    out_.append("symbolic")
+                                    continue
+                                try:
+                                    out_.append(circuit_outputs(q_, row[:nin_]))
+                                except Exception as e:
+                                    out_.append("raised " + type(e).__name__)
+                            return out_
+
+                        mine = circuit_rows(res)
+                        want_rows = [("symbolic" if any(not isinstance(c_, bool) for c_ in row) else row[nin_:]) for row in rows]
+                        if any(m_ is None for m_ in mine):
+                            probe("B6_not_a_classical_circuit")
+                        elif mine == want_rows:
+                            probe("B6_ok")
+                        else:
+                            ck = ("inj_circuit", ua["src"], canon(a["values"]), ua["opt"])
+                            if ck not in spec_memo:
+                                try:
+                                    sq_ = qlassf(injected(ua["src"], a["values"]), defs=[objs[i] for i in ua["defs"]], to_compile=True, bool_optimizer=_opt(ua["opt"]))
+                                    spec_memo[ck] = (circuit_rows(sq_) if list(sq_.truth_table_header()) == hdr else None, "ok")
+                                except Exception as e:
+                                    spec_memo[ck] = (None, "rejected:" + type(e).__name__)
+                            hand, hand_state = spec_memo[ck]
+                            shared_ = hand is not None and hand == mine
+                            # Strict where the unchanged tree is right on everything generated (default profile, some
+                            # input left): a bound function whose circuit does not compute its table violates the
+                            # statement whoever is to blame. The fast profile's circuits -- and functions with no input
+                            # left, whose output_qubits raise -- already disagree with or without binding on the
+                            # unchanged tree (C02's matter, DESIGN 10.18): there the check can only be differential
+                            if shared_ and (ua["opt"] != "default" or nin_ == 0):
+                                probe("circuit_differs_from_table_with_or_without_binding_(C02_matter)")
+                            else:
+                                if shared_:
+                                    probe("B6_strict_shared_with_hand_built_form")
+                                bad_ = next(i_ for i_, (m_, w_) in enumerate(zip(mine, want_rows)) if m_ != w_)
+                                violation = viol("B6", op, ["the compiled circuit of the bound function does not compute its truth table" + ("; neither does the circuit of the program with the assignments prepended by hand (a compiler defect met through binding)" if shared_ else ", unlike (or unverifiable against) the circuit of the program with the assignments prepended by hand")],
+                                                 at=canon(rows[bad_][:nin_]), got=str(mine[bad_]), hand=hand_state if hand is None else str(hand[bad_]), values=a["values"], order=a["order"])
                     # B1 first: the unbound program as plain Python, parameters set to v
                     b1 = None
                     pyf, pv = None, {}
